@@ -581,6 +581,8 @@ type Shape struct {
 	// two response objects written in operations (not components) whose content
 	// schema is a reference to one schema
 	LiteralResponsesShareSchema bool
+	// two different targets of one kind whose pointers end in the same name
+	SameNameTargets bool
 }
 
 func analyse(docs Docs) Shape {
@@ -663,6 +665,18 @@ func analyse(docs Docs) Shape {
 				sh.ResponseCodeAndPattern = true
 			}
 		}
+	}
+	lastName := map[string]string{}
+	for i, s := range g.Sites {
+		if len(g.TTokens[i]) == 0 || g.TNode[i] == nil {
+			continue
+		}
+		name := string(s.Kind) + " " + g.TTokens[i][len(g.TTokens[i])-1]
+		full := g.TFile[i] + "#" + ptrString(g.TTokens[i])
+		if prev, ok := lastName[name]; ok && prev != full {
+			sh.SameNameTargets = true
+		}
+		lastName[name] = full
 	}
 	litResp := map[string]int{}
 	for i, s := range g.Sites {
